@@ -319,6 +319,29 @@ def _swap_one_literal(ast, rng, done=None):
     return ast
 
 
+def swap_colliding_literal(ast, done=None):
+    """copy of the AST in which the first integer literal -1 / -2 met becomes the other one (hash(-1) == hash(-2) in
+    CPython: two different expressions with one hash); the AST itself when it has none"""
+    done = done if done is not None else [False]
+    if done[0] or not isinstance(ast, tuple) or not ast:
+        return ast
+    t = ast[0]
+    if t == "lit":
+        if isinstance(ast[1], int) and not isinstance(ast[1], bool) and ast[1] in (-1, -2):
+            done[0] = True
+            return ("lit", -3 - ast[1])
+        return ast
+    if t == "bin":
+        a = swap_colliding_literal(ast[2], done)
+        b = swap_colliding_literal(ast[3], done)
+        return ("bin", ast[1], a, b)
+    if t in ("un", "bi"):
+        return (t, ast[1], swap_colliding_literal(ast[2], done)) + tuple(ast[3:])
+    if t == "idx":
+        return ("idx", swap_colliding_literal(ast[1], done), ast[2])
+    return ast
+
+
 STYLES = ["item", "item", "attr", "mgr"]
 
 DEFAULT_WEIGHTS = {"setv": 30, "sete": 30, "inpl": 12, "unreg": 6, "setc": 5,
